@@ -49,11 +49,13 @@ def gen_prog(rng, beh):
             n += 4          # still busy after several cancellations
         return ''.join(rng.choice('RS') for _ in range(n))
     p = ''
+    if rng.random() < 0.15:
+        n += 3              # keeps working for a while after its trailers
     for k in range(n):
-        if 'T' in p:
-            p += rng.choice('SSR')
+        if 'T' in p or 'X' in p:
+            p += rng.choice('SSR') if 'T' in p else 'S'
         else:
-            p += rng.choice('RSSWWT' if k else 'RSSWW')
+            p += rng.choice('RSSWWTX' if k else 'RSSWWTX')
     return p
 
 
@@ -224,16 +226,27 @@ def gc_scripts():
                     s += [['settle']] + [['tick']] * 4
                     out.append({'kind': 'script', 'name': 'gc:%s:%s:drop%d:%d+%d' % (first, beh, drop, before, after),
                                 'script': s})
-    # Handler-level GC: the 10th accept on a connection while earlier handlers are finished / cancelled /
-    # in cleanup, then a reset or a close
-    for n in (8, 9, 10, 11, 19, 20):
-        for cause in (['rst', 0, 0], ['lose', 0], ['srvclose']):
-            s = [['start'], ['connect', 0], ['connect', 0], ['open', 0, 0, 'h3', 0, 'SS'], ['settle'],
-                 ['rst', 0, 0] if cause[0] != 'rst' else ['settle'], ['settle']]
-            s += [['open', 0, i, 'h1', 0, '' if i % 2 else 'S'] for i in range(1, n)]
-            s += [['settle'], cause, ['settle'], ['open', 0, n, 'h1', 0, 'S'], ['settle'],
-                  ['srvclose'], ['wait'], ['settle'], ['lose', 0], ['lose', 1], ['settle']] + [['tick']] * 4
-            out.append({'kind': 'script', 'name': 'hgc:%d:%s' % (n, cause[0]), 'script': s})
+    # Handler-level GC (every 10th accept on a connection) once and twice while an earlier handler is in a LATE
+    # state -- still working after OK trailers, after non-OK trailers (stream closed by the server itself),
+    # in the middle of its cleanup, cancelled but carrying on -- and then each shutdown path; every such handler
+    # must still be cancelled by the shutdown and waited for by wait_closed()
+    late = {'after-trailers': ('h1', 'TSSSSSS', None), 'after-error-trailers': ('h1', 'XSSSSSS', None),
+            'after-message-and-trailers': ('h2', 'WTSSSSS', 'credit'), 'mid-cleanup': ('h3', 'SS', 'rst'),
+            'cancelled-carrying-on': ('sw', 'SSSSSSS', 'rst'), 'plain': ('h2', 'SSSSSSS', None)}
+    for state, (beh, prog, prep) in sorted(late.items()):
+        for n in (9, 10, 11, 20, 21):
+            for cause in (['srvclose'], ['lose', 0], ['goaway', 0], ['rst', 0, 0]):
+                if cause[0] == 'rst' and prep == 'rst':
+                    continue
+                s = [['start'], ['connect', 0], ['connect', 0], ['open', 0, 0, beh, 0, prog], ['settle']]
+                if prep == 'credit':
+                    s += [['credit', 0, 0], ['settle']]
+                elif prep == 'rst':
+                    s += [['rst', 0, 0], ['settle']]
+                s += [['open', 0, i, 'h1', 0, '' if i % 2 else 'S'] for i in range(1, n)]
+                s += [['settle'], cause, ['settle'], ['open', 0, n, 'h1', 0, 'S'], ['settle'],
+                      ['srvclose'], ['wait'], ['settle'], ['lose', 0], ['lose', 1], ['settle']] + [['tick']] * 4
+                out.append({'kind': 'script', 'name': 'hgc:%s:%d:%s' % (state, n, cause[0]), 'script': s})
     return out
 
 
@@ -598,6 +611,142 @@ def check_graceful(ctx, res, cases):
                                             'observed': impl})
 
 
+# ---- one Wrapper, several tasks ------------------------------------------------------------------------------
+
+def wrapper_impl(ntasks, ops):
+    """The public grpclib.utils.Wrapper driven by several tasks: 'e<t>' task t enters `with wrapper` and blocks
+    inside, 'x<t>' it leaves, 'k' wrapper.cancel(error).  -> (cancelled, refused, failures of the oracle)"""
+    from harness import vloop
+    from grpclib.utils import Wrapper
+
+    class Woken(Exception):
+        pass
+    with vloop.session() as loop:
+        w = Wrapper()
+        inbox = [asyncio.Queue() for _ in range(ntasks)]
+        inside = [False] * ntasks
+        cancelled, refused, stray = [], [], []
+
+        async def worker(t):
+            while True:
+                try:
+                    cmd = await inbox[t].get()
+                except asyncio.CancelledError:
+                    stray.append(t)                 # cancelled while OUTSIDE the with-block
+                    continue
+                if cmd == 'stop':
+                    return
+                if cmd != 'e':
+                    continue
+                try:
+                    with w:
+                        inside[t] = True
+                        try:
+                            await inbox[t].get()      # blocked inside, until told to leave
+                        finally:
+                            inside[t] = False
+                except Woken:
+                    (cancelled if t in was_inside else refused).append(t)
+                except asyncio.CancelledError:
+                    stray.append(t)
+        tasks = [loop.create_task(worker(t)) for t in range(ntasks)]
+        loop.run_quiet(0.0)
+        fails, effective = [], []
+        for op in ops:
+            if op == 'k':
+                was_inside = {t for t in range(ntasks) if inside[t]}
+                before = list(cancelled)
+                w.cancel(Woken())
+                loop.run_quiet(0.0)
+                # a task woken inside its with-block leaves it (its __exit__ runs): that is an exit of its own
+                effective += ['k'] + ['x%d' % t for t in sorted(was_inside) if not inside[t]]
+                woken = list(cancelled)
+                for t in before:
+                    woken.remove(t)
+                missed = sorted(was_inside - set(woken))
+                if missed:
+                    fails.append(('task(s) %r blocked inside `with wrapper` were not woken by Wrapper.cancel' % missed,
+                                  {'kind': 'wrapper-task-not-cancelled'}))
+            else:
+                was_inside = {t for t in range(ntasks) if inside[t]}
+                t = int(op[1:])
+                if op[0] == 'e' and inside[t] or op[0] == 'x' and not inside[t]:
+                    continue
+                effective.append(op)
+                inbox[t].put_nowait(op[0])
+                loop.run_quiet(0.0)
+        if stray:
+            fails.append(('task(s) %r were cancelled by Wrapper.cancel while outside the with-block' % sorted(set(stray)),
+                          {'kind': 'wrapper-outside-task-cancelled'}))
+        for t in range(ntasks):
+            inbox[t].put_nowait('stop')
+            inbox[t].put_nowait('stop')
+        loop.run_quiet(0.0)
+        for t in tasks:
+            t.cancel()
+        return sorted(cancelled), sorted(refused), fails, effective
+
+
+def gen_wrapper_ops(rng, ntasks):
+    inside, ops, cancelled = set(), [], False
+    for _ in range(rng.choice([3, 5, 8, 12])):
+        t = rng.randrange(ntasks)
+        r = rng.random()
+        if r < 0.12 and ops:
+            ops.append('k')
+            inside = set()
+        elif t in inside:
+            ops.append('x%d' % t)
+            inside.discard(t)
+        else:
+            ops.append('e%d' % t)
+            inside.add(t)
+    ops.append('k')
+    if rng.random() < 0.5:
+        ops.append('e%d' % rng.randrange(ntasks))
+    return ops
+
+
+def check_wrapper_tasks(ctx, res, cases):
+    impl = [wrapper_impl(ntasks, ops) for ntasks, ops in cases]
+    lines = ['wset ' + ' '.join(r[3]) for r in impl]
+    model = ctx.model(lines) if ctx.model_ok else None
+    for n, (ntasks, ops) in enumerate(cases):
+        cancelled, refused, fails, _ = impl[n]
+        res.evaluations += 1
+        res.count('wrapper-tasks:%d' % ntasks)
+        res.signatures.add(('wset', tuple(ops)))
+        case = {'kind': 'wrapper-tasks', 'ntasks': ntasks, 'ops': ops}
+        if model is not None:
+            res.traces += 1
+            w = model[n].split()
+            m = ([] if w[0] == '-' else [int(x) for x in w[0].split(',')],
+                 [] if w[1] == '-' else [int(x) for x in w[1].split(',')])
+            if m != (cancelled, refused):
+                res.disagreements.append({'case': case, 'model': m, 'impl': (cancelled, refused)})
+        for what, sig in fails:
+            res.oracle_failures.append({'case': case, 'what': what, 'signature': sig,
+                                        'observed': {'cancelled': cancelled, 'refused': refused}})
+
+
+def wrapper_cases(ctx):
+    import itertools
+    cases = []
+    # every order of entering and leaving of two and three tasks (each enters once, a prefix of them leaves)
+    for nt in (2, 3):
+        for enter in itertools.permutations(range(nt)):
+            for k in range(nt):
+                for leave in itertools.permutations(range(nt), k):
+                    cases.append((nt, ['e%d' % t for t in enter] + ['x%d' % t for t in leave] + ['k', 'e0']))
+    # re-entry after leaving, in both orders
+    cases += [(2, ['e0', 'e1', 'x0', 'e0', 'k']), (2, ['e0', 'e1', 'x1', 'e1', 'x0', 'k']),
+              (3, ['e0', 'e1', 'e2', 'x0', 'x1', 'e0', 'k', 'e1'])]
+    for _ in range(ctx.n(150, 3000)):
+        nt = ctx.rng.choice([2, 2, 3, 4])
+        cases.append((nt, gen_wrapper_ops(ctx.rng, nt)))
+    return cases
+
+
 # ---- loopback sockets: Server.wait_closed with an idle client connection (thorough tier) -----------
 
 def loopback_wait_closed(idle, close_client_after, budget=5.0):
@@ -707,6 +856,7 @@ def run(ctx):
                 'sweeps (bursts of up to 25 connections / 20 accepts) at every alignment relative to a cancelled '
                 'handler in its cleanup, followed by Server.close + wait_closed; micro-interleavings; '
                 'graceful_exit over all started/not-started vectors up to 3 servers x signal sequences up to 3; '
+                'one public Wrapper driven by 2-4 tasks entering and leaving in every order (not LIFO), then cancel(); '
                 'distinct = distinct multiset of per-handler (phase, cancels, cleanup-hits) histories')
     cases = list(ctx.corpus())
     cases += matrix_scripts()
@@ -730,6 +880,8 @@ def run(ctx):
                     gx.append((bits, sigs, True))
     gx += [(c['bits'], c['sigs'], c['real']) for c in cases if c.get('kind') == 'graceful']
     check_graceful(ctx, res, gx)
+    check_wrapper_tasks(ctx, res, [(c['ntasks'], c['ops']) for c in cases if c.get('kind') == 'wrapper-tasks'] +
+                        wrapper_cases(ctx))
     if ctx.tier == 'thorough':
         check_loopback(ctx, res)
     else:
@@ -748,6 +900,8 @@ def replay(ctx, case):
         check_graceful(ctx, res, [(case['bits'], case['sigs'], case['real'])])
     elif kind == 'pair-table':
         check_pair_table(ctx, res)
+    elif kind == 'wrapper-tasks':
+        check_wrapper_tasks(ctx, res, [(case['ntasks'], case['ops'])])
     elif kind == 'loopback':
         ret, dt = loopback_wait_closed(case['idle'], case['close_client_after'])
         res.evaluations = 1
